@@ -207,13 +207,19 @@ func judgeC21(c CursorCase, o *CursorObs, tr *Trace, eng *bs.BloomSearchEngine) 
 		time.Sleep(time.Millisecond)
 	}
 	// the full concurrency budget is available again
-	w, err := getCursorWorld(c.World)
-	if err != nil {
-		return nil, false
+	if v, timing := recheckBudget(tr, eng, c.World, c.QConc); v != nil {
+		return v, timing
 	}
-	nblocks := c.World.Files * c.World.Blocks
-	if c.QConc <= 8 && nblocks >= c.QConc && c.QConc >= 1 {
-		target := int32(c.QConc)
+	return nil, false
+}
+
+// recheckBudget: after the queries of a case have ended, a follow-up match-all
+// query with a read barrier must reach MaxQueryConcurrency simultaneous reads
+// (when the dataset has that many blocks): every slot was given back.
+func recheckBudget(tr *Trace, eng *bs.BloomSearchEngine, world CursorWorldSpec, qconc int) (*Violation, bool) {
+	nblocks := world.Files * world.Blocks
+	if qconc <= 8 && nblocks >= qconc && qconc >= 1 {
+		target := int32(qconc)
 		best := int32(0)
 		for attempt := 0; attempt < 3 && best < target; attempt++ {
 			var inside, peak int32
@@ -241,17 +247,27 @@ func judgeC21(c CursorCase, o *CursorObs, tr *Trace, eng *bs.BloomSearchEngine) 
 			if err != nil {
 				return violf("follow-up query rejected: %v", err), false
 			}
-			for res.Next() {
+			type fin struct{}
+			donec := make(chan fin, 1)
+			go func() {
+				for res.Next() {
+				}
+				res.Close()
+				donec <- fin{}
+			}()
+			select {
+			case <-donec:
+			case <-time.After(20 * time.Second):
+				tr.Before = nil
+				return violf("after the queries ended, a follow-up match-all query did not finish within 20s with MaxQueryConcurrency=%d (it reached %d simultaneous reads): the query budget was not given back", qconc, atomic.LoadInt32(&peak)), true
 			}
-			res.Close()
 			if p := atomic.LoadInt32(&peak); p > best {
 				best = p
 			}
 		}
 		tr.Before = nil
-		_ = w
 		if best < target {
-			return violf("after the query ended, a follow-up query over %d blocks reached only %d simultaneous reads with MaxQueryConcurrency=%d: part of the query budget was not released", nblocks, best, c.QConc), true
+			return violf("after the query ended, a follow-up query over %d blocks reached only %d simultaneous reads with MaxQueryConcurrency=%d: part of the query budget was not released", nblocks, best, qconc), true
 		}
 		Ev.Class("budget-rechecked")
 	}
@@ -259,9 +275,10 @@ func judgeC21(c CursorCase, o *CursorObs, tr *Trace, eng *bs.BloomSearchEngine) 
 }
 
 func TestC21(t *testing.T) {
-	Ev.Rule = "same generated cursor scripts as C20 (datasets up to 36 blocks, early Close/cancel, read/open/iterator failures, gated iteration, slow consumers). Oracle from the harness's handle-accounting store wrapper: when Next returns false, and at the moment EACH individual Close call returns (sequential, asynchronous, or one of several concurrent ones), every handle the query opened has been closed and the iterator has returned; finally every handle closed exactly once, never used after close, never used by two goroutines at once; the MetaStore iterator has returned; goroutines with bloomsearch query frames (stack inspection) are gone within a 2 s settle window; then a follow-up match-all query with a read barrier must reach MaxQueryConcurrency simultaneous reads (when the dataset has that many blocks). Non-trivial: early termination mid-stream or a failure fired; distinct by case."
+	Ev.Rule = "same generated cursor scripts as C20 (datasets up to 36 blocks, early Close/cancel, read/open/iterator failures, gated iteration, slow consumers). Oracle from the harness's handle-accounting store wrapper: when Next returns false, and at the moment EACH individual Close call returns (sequential, asynchronous, or one of several concurrent ones), every handle the query opened has been closed and the iterator has returned; finally every handle closed exactly once, never used after close, never used by two goroutines at once; the MetaStore iterator has returned; goroutines with bloomsearch query frames (stack inspection) are gone within a 2 s settle window; then a follow-up match-all query with a read barrier must reach MaxQueryConcurrency simultaneous reads (when the dataset has that many blocks). contended phase: 2-6 queries sharing one engine with MaxQueryConcurrency 1-3, slow reads and slow handle Close calls, each query drained / closed / cancelled / stalled-then-closed at its own moment, optionally one failing read: same accounting when all have ended, then the budget recheck. Non-trivial: early termination mid-stream or a failure fired; distinct by case."
 	Ev.Assumptions = []string{"'used by two goroutines at once' is detected when the overlap actually happens in a run", "goroutines are attributed to queries by their stack frames"}
 	runChecks(t, "scripts", 400, 10000, genCursorCase(true), runCursorProperty(judgeC21))
+	runChecks(t, "contended", 150, 4000, genC21Contended(), runC21Contended)
 }
 
 // ---------------------------------------------------------------- C23 fault phase
